@@ -73,11 +73,17 @@ def _expand(chunk):
         sysm.task_reset()
     out = []
     sent = set()
-    for idx, snap, model in chunk:
-        sv = sysm.state_check(snap, model)
+    for item in chunk:
+        idx, snap, model = item[:3]
+        k, nsl = item[3] if len(item) > 3 else (0, 1)
+        # a state's events may be split into nsl strided slices (few states with very many events each); slice 0 also
+        # evaluates the state invariants
+        sv = sysm.state_check(snap, model) if k == 0 else []
         succ = []
         if not sv:
             for ei, ev in enumerate(sysm.events(snap, model)):
+                if ei % nsl != k:
+                    continue
                 st = sysm.step(snap, model, ev)
                 if st is None:  # event not enabled
                     continue
@@ -148,6 +154,10 @@ def explore(sysm, *, state_cap=200000, depth_cap=None, keep_states=False, max_vi
                 break
             res.levels.append(len(frontier))
             items = [(i, snaps[i], models[i]) for i in frontier]
+            nsl = 1
+            if pool is not None and len(items) < workers * 4 and getattr(sysm, "many_events", False):
+                nsl = max(1, (workers * 4) // max(1, len(items)))
+                items = [(i, sn, mo, (k, nsl)) for (i, sn, mo) in items for k in range(nsl)]
             nchunks = max(1, min(len(items), workers * 4))
             size = (len(items) + nchunks - 1) // nchunks
             chunks = [items[j : j + size] for j in range(0, len(items), size)]
@@ -157,6 +167,18 @@ def explore(sysm, *, state_cap=200000, depth_cap=None, keep_states=False, max_vi
                 results = [_expand(ch) for ch in chunks]
             nxt = []
             payloads = {}
+            if nsl > 1:
+                merged = {}
+                for out, stats in results:
+                    for idx, sv, succ in out:
+                        e = merged.setdefault(idx, [[], []])
+                        e[0] += sv
+                        e[1] += succ
+                combined = [(idx, e[0], sorted(e[1], key=lambda x: x[0])) for idx, e in sorted(merged.items(), key=lambda kv: frontier.index(kv[0]) if len(frontier) < 5000 else kv[0])]
+                allstats = collections.Counter()
+                for out, stats in results:
+                    allstats.update(stats)
+                results = [(combined, allstats)]
             for out, stats in results:
                 res.stats.update(stats)
                 for idx, sv, succ in out:
